@@ -3,7 +3,7 @@
    and Proofs/P_Cache.v (accessor histories).  Model: Model/M_Drift.v; the orbit computation and slerp's trigonometry
    are oracles (section variables); Gen_Drift ties the constants and the shape of the calls to the source. *)
 From Coq Require Import String ZArith QArith Qround List Bool Reals.
-From PV Require Import M_Drift P_C09 P_C09_R M_Cache P_Cache Gen_Drift.
+From PV Require Import M_Drift P_C09 P_C09_R M_Cache P_Cache Gen_Drift Gen_Clock Spec_Tables.
 Import ListNotations.
 Open Scope Z_scope.
 
@@ -18,6 +18,14 @@ Theorem C09_source_shape :
   drift_klm_noop = true /\ drift_adjust_call_sites = ["reader.py"%string].
 Proof. repeat split; vm_compute; reflexivity. Qed.
 Print Assumptions C09_source_shape.
+
+(* the clock-error tables in the source are the published ones (frozen copy spec/tables.json) *)
+Theorem C09_published_tables :
+  clock_noaa14 = spec_clock_noaa14 /\ clock_noaa12 = spec_clock_noaa12 /\ clock_noaa11 = spec_clock_noaa11 /\
+  clock_noaa9 = spec_clock_noaa9 /\ clock_noaa7 = spec_clock_noaa7 /\
+  map fst clock_tables = ["noaa14"; "noaa12"; "noaa11"; "noaa7"; "noaa9"]%string.
+Proof. repeat split; vm_compute; reflexivity. Qed.
+Print Assumptions C09_published_tables.
 
 (* time: each line's time is shifted by minus the (truncated to ms) clock error interpolated at that line's time ... *)
 Theorem C09_time_shift : forall tab t, new_time tab t = t - Qtrunc (interp tab t * 1000).
